@@ -24,6 +24,11 @@ CmpReflexive == IsCmp => \A i \in 1 .. N : T(i, i) = "E"
 CmpAntisymmetric == IsCmp => \A i, j \in 1 .. N : T(i, j) = Rev(T(j, i))
 CmpTransitive == IsCmp =>
   \A i, j, k \in 1 .. N : (Leq(T(i, j)) /\ Leq(T(j, k))) => Leq(T(i, k))
+(* `the order produced is a function of the elements alone': two DIFFERENT identifiers are never *)
+(* ranked equal (a stable sort would keep them in input order, and two permutations of one   *)
+(* group would format differently); R.same[i][j]: names i and j are the same text            *)
+CmpSeparates == (IsCmp /\ "same" \in DOMAIN R) =>
+  \A i, j \in 1 .. N : T(i, j) = "E" => R.same[i][j]
 CmpAsModel == R.kind = "cmp" =>
   \A i, j \in 1 .. N : T(i, j) = VersionSort(R.names[i], R.names[j])
 
@@ -34,10 +39,11 @@ BeforeTransitive == R.kind = "before" =>
   \A i, j, k \in 1 .. N : (i # j /\ j # k /\ i # k /\ K(i, j) /\ K(j, k)) => K(i, k)
 
 ReportInv ==
-  LET F == {n \in {"CmpReflexive", "CmpAntisymmetric", "CmpTransitive", "CmpAsModel",
+  LET F == {n \in {"CmpReflexive", "CmpAntisymmetric", "CmpTransitive", "CmpAsModel", "CmpSeparates",
                    "BeforeTotal", "BeforeTransitive"} :
               ~(CASE n = "CmpReflexive" -> CmpReflexive [] n = "CmpAntisymmetric" -> CmpAntisymmetric
                   [] n = "CmpTransitive" -> CmpTransitive [] n = "CmpAsModel" -> CmpAsModel
+                  [] n = "CmpSeparates" -> CmpSeparates
                   [] n = "BeforeTotal" -> BeforeTotal [] n = "BeforeTransitive" -> BeforeTransitive)}
   IN F = {} \/ PrintT(ToJson([tag |-> "FAIL", l |-> l, fails |-> F]))
 =============================================================================
